@@ -10,6 +10,7 @@ import (
 
 	"github.com/git-lfs/git-lfs/v3/errors"
 	"github.com/git-lfs/git-lfs/v3/tr"
+	"github.com/git-lfs/git-lfs/v3/verifhook"
 )
 
 const (
@@ -28,7 +29,7 @@ func CopyWithCallback(writer io.Writer, reader io.Reader, totalSize int64, cb Co
 		return totalSize, nil
 	}
 	if cb == nil {
-		return io.Copy(writer, reader)
+		return io.Copy(writer, verifhook.WrapReader(reader))
 	}
 
 	cbReader := &CallbackReader{
